@@ -271,6 +271,9 @@ def rules(ctx):
     C02.slack_register_size(ctx, 'R03.7', [P.func('PCBO.add_constraint_le_zero'), P.func('PCBO.add_constraint_ne_zero')] +
                             P.opt_funcs(['_pcbo._special_constraints_le_zero']))
     C02.two_sided_slack(ctx, 'R03.7', P.func('PCBO.add_constraint_ne_zero'))
+    # bounds completed by _get_bounds enclose the polynomial (the spin methods hand their bounds on to it)
+    if P.has_func('_pcbo._get_bounds'):
+        C02.get_bounds_rule(ctx, 'R03.7', P.func('_pcbo._get_bounds'), 'approximate_pubo_extrema')
     C02.slack_weights(ctx, 'R03.7', list(C02.rel_methods(P, 'PCBO').values()) + P.opt_funcs(['_pcbo._special_constraints_le_zero']))
     C02.merge_discipline(ctx, 'R03.7', list(C02.rel_methods(P, 'PCBO').values()) + P.opt_funcs(
         ['_pcbo._special_constraints_eq_zero', '_pcbo._special_constraints_le_zero']))
